@@ -110,15 +110,17 @@ theorem principal_only_to_info :
 
 /-- Entry points, order inside `execute_rpc`, the auth route layer and the router, as frozen:
 `POST /` → `Scope::Root` + `RootMethod::parse` + `dispatch_root` (principal dropped);
-`POST /{db_name}` → `Scope::Database(db_name)` + `DbMethod::parse` + `dispatch_db(db_name, principal)`;
+`POST /{db_name}` → `Scope::Database(<the Path capture>)` + `DbMethod::parse` +
+`dispatch_db(<the Path capture>, <the closure's principal>)` (sources are recorded by role — `path`,
+`closure:principal` — not by the names of locals);
 authorisation precedes body parsing, method lookup and dispatch; every route is added before the
 `require_auth` route layer. -/
 theorem wiring_frozen :
     wiring = [⟨"rpc_root", "Root", "", "RootMethod", "dispatch_root", false, ""⟩,
-              ⟨"rpc_db", "Database", "db_name", "DbMethod", "dispatch_db", true, "db_name"⟩] ∧
+              ⟨"rpc_db", "Database", "path", "DbMethod", "dispatch_db", true, "path"⟩] ∧
     executeOrder = ["authorize", "parse_body", "parse_method", "dispatch"] ∧
     executeForwardsAuthorizedPrincipal = true ∧
-    requireAuth = ["skip_non_post", "skip_bad_path_params", "authorize_scope_from_params", "reject_with_error"] ∧
+    requireAuth = ["skip_non_post", "authorize_scope_from_params", "reject_with_error"] ∧
     scopeCapture = "db_name" ∧
     bearerPrefix.toList.map (·.toNat) = bearerPrefixBytes ∧
     routerChain = [("route", "GET / get_info"), ("route", "POST / rpc_root"), ("route", "POST /{db_name} rpc_db"),
